@@ -768,6 +768,25 @@ func c19H3(p *core.Prog, r *core.Run, rt *ssa.Function) {
 	}
 	r.Check("C19.H3", "dispatch:both", seenPol[true] && seenPol[false], p.Pos(rt.Pos()), "both protocol branches dispatch a round trip (%d RoundTrip call sites)", nDispatch)
 
+	// the filter only removes records: what RoundTrip puts into the HTTPS list
+	// of the result it hands to the dialer is that list with records deleted,
+	// never a record of its own making (Dial and Targets take every record in
+	// the list for one the DNS published)
+	if hf := field(p, Ech, "ResolveResult", "HTTPS"); hf != nil {
+		nSt := 0
+		for _, st := range fieldStores(p, core.Closures(rt), hf) {
+			nSt++
+			v := p.X(st.Val)
+			ok := false
+			for _, a := range v.Alts() {
+				ok = a.Op == "call" && a.Name == "slices.DeleteFunc" && len(a.Args) == 2 && a.Args[0].Op == "field" && a.Args[0].Obj == hf
+				if !ok {
+					break
+				}
+			}
+			r.Check("C19.H3", fmt.Sprintf("filter:only-removes#%d", nSt), ok, p.InstrPos(st), "the record list handed to the dialer is the resolver's with records removed: %s", short(v))
+		}
+	}
 	// the filter predicate: the literal(s) given to slices.DeleteFunc
 	filts := map[*ssa.Function]bool{}
 	for _, s := range callSites(p, core.Closures(rt), `slices\.DeleteFunc`) {
